@@ -1,6 +1,7 @@
 import Capella.Lemmas.TxnSave
 import Capella.Lemmas.TxnClash
 import Capella.Lemmas.TmpName
+import Capella.Model.TxnLinks
 
 /-!
 # C15 — a failed save leaves the files on disk exactly as they were
@@ -201,6 +202,60 @@ theorem save_after_any_history (hord : ∀ l, (ord l).Perm l) (hist : List (Past
   exact ⟨hs, transaction_txn tmp ord noFault false _ s1 h1,
     success_spec tmp ord noFault hord s1 h1 frags hg hok hs⟩
 
+/-! ## Symbolic links (round 5)
+
+`s.fs` holds the entries of the directory as `lstat` sees them; `linkOf b = some q`: the entry with bytes `b` is a
+symbolic link that leads to `q` (see `Model/TxnLinks.lean`).  The map covers every path — the root of the handler and
+whatever directory a link leads into. -/
+
+/-- **A failed save and symbolic links**: under the hypotheses of `failed_save_restores_exact` (any fault point up to
+and including the first rename, any fault kind), for any reading of entries as links: every link is still a link with
+the same text and the entry it leads to is what it was; no path that did not exist before exists afterwards — in
+particular no temporary file beside the file a link leads to; and reading any path through its links gives what it
+gave before. -/
+theorem failed_save_keeps_links (linkOf : Bytes → Option P) (hord : ∀ l, (ord l).Perm l) (s : St P) (h : s.txn = none)
+    (frags : List (Frag P)) (hg : GoodFrags [] frags) (hok : TmpOK tmp (frags.map (·.path)))
+    (dry : Bool) (k : Nat) (f : Fault)
+    (hk : k < 5 * frags.length ∨ (k = 5 * frags.length ∧ dry = false ∧ frags ≠ []))
+    (hclean : ∀ q ∈ tmps tmp frags, s.fs q = none) :
+    (∀ p b q, s.fs p = some b → linkOf b = some q →
+      (save tmp ord (single (s.clock + k) f) none dry frags s).1.fs p = some b ∧
+      (save tmp ord (single (s.clock + k) f) none dry frags s).1.fs q = s.fs q) ∧
+    (∀ r, s.fs r = none → (save tmp ord (single (s.clock + k) f) none dry frags s).1.fs r = none) ∧
+    (∀ n p, readThrough linkOf (save tmp ord (single (s.clock + k) f) none dry frags s).1.fs n p =
+      readThrough linkOf s.fs n p) := by
+  have he := failed_save_restores_exact tmp ord hord s h frags hg hok dry k f hk hclean
+  rw [he]
+  exact ⟨fun p b q hp _ => ⟨hp, rfl⟩, fun r hr => hr, fun n p => rfl⟩
+
+/-- **A dry run and symbolic links**: a fault-free dry-run save (no stale temp file beforehand) leaves the whole map as
+it was — every link, what it leads to, and no new entry anywhere. -/
+theorem dry_run_keeps_links (linkOf : Bytes → Option P) (hord : ∀ l, (ord l).Perm l) (s : St P) (h : s.txn = none)
+    (frags : List (Frag P)) (hg : GoodFrags [] frags) (hok : TmpOK tmp (frags.map (·.path)))
+    (hclean : ∀ q ∈ tmps tmp frags, s.fs q = none) :
+    (save tmp ord noFault none true frags s).1.fs = s.fs ∧
+    (∀ n p, readThrough linkOf (save tmp ord noFault none true frags s).1.fs n p = readThrough linkOf s.fs n p) := by
+  have he : (save tmp ord noFault none true frags s).1.fs = s.fs := by
+    funext q
+    rcases (dry_run_noop tmp ord hord s h frags hg hok).2.2 q with hq | ⟨hm, hq⟩
+    · exact hq
+    · rw [hq, hclean q hm]
+  rw [he]
+  exact ⟨rfl, fun n p => rfl⟩
+
+/-- What the code does *as coded* when a save SUCCEEDS on a file that is a symbolic link (not demanded by the property,
+recorded because the harness observes it): the entry is replaced by the regular file with the complete new content —
+the link is gone — and the file the link led to (not itself written, not a temp name) keeps its old content. -/
+theorem commit_replaces_link_keeps_target (linkOf : Bytes → Option P) (σ : Sched) (hord : ∀ l, (ord l).Perm l) (s : St P)
+    (h : s.txn = none) (frags : List (Frag P)) (hg : GoodFrags [] frags)
+    (hs : (save tmp ord σ none false frags s).2 = none)
+    (fr : Frag P) (hfr : fr ∈ frags) (b : Bytes) (q : P) (_hp : s.fs fr.path = some b) (_hl : linkOf b = some q)
+    (hq1 : q ∉ frags.map (·.path)) (hq2 : q ∉ tmps tmp frags) :
+    (save tmp ord σ none false frags s).1.fs fr.path = some (fr.decl ++ fr.payload) ∧
+    (save tmp ord σ none false frags s).1.fs q = s.fs q :=
+  ⟨(commit_complete tmp ord σ hord s h frags hg hs).2.1 fr hfr,
+   (commit_complete tmp ord σ hord s h frags hg hs).2.2.2 q hq1 hq2⟩
+
 /-- The checks of `MelodyLoader.save` run before the transaction opens: if they raise, nothing at
 all has happened. -/
 theorem checks_come_first (σ : Sched) (e : Err) (dry : Bool) (frags : List (Frag P)) (s : St P) :
@@ -375,6 +430,36 @@ example :
     let r := save w_tmp id noFault none false w_frags s1
     s1.fs 1 = some [1, 5] ∧ s1.fs 2 = none ∧ r.2 = none ∧ r.1.fs 1 = some [1, 7] ∧ r.1.fs 2 = some [1, 8] ∧
     r.1.fs 101 = none ∧ r.1.fs 102 = none := by
+  decide
+
+section witness3
+/-- entries `[0, q]` are symbolic links to `q` -/
+def w_link : Bytes → Option Nat
+  | [0, q] => some q
+  | _ => none
+/-- file 1 is a link to 50 (a file in another directory: its temp name would be 150), file 2 does not exist yet -/
+def w_s3 : St Nat := { fs := fun q => if q = 1 then some [0, 50] else if q = 50 then some [1, 5] else none,
+                       txn := none, clock := 0, log := [] }
+end witness3
+
+/-- a save that fails while the second file is opened: file 1 is still the link, what it leads to is unchanged, no temp
+file beside the link (101) or beside what it leads to (150); reading 1 gives the old content -/
+example :
+    let r := save w_tmp id (single 5 ⟨.os 28, true⟩) none false w_frags w_s3
+    r.2 = some (.os 28) ∧ r.1.fs 1 = some [0, 50] ∧ r.1.fs 50 = some [1, 5] ∧ r.1.fs 101 = none ∧ r.1.fs 150 = none ∧
+    r.1.fs 102 = none ∧ readThrough w_link r.1.fs 3 1 = some [1, 5] := by
+  decide
+
+/-- a dry run on the same directory -/
+example :
+    let r := save w_tmp id noFault none true w_frags w_s3
+    r.2 = none ∧ r.1.fs 1 = some [0, 50] ∧ r.1.fs 50 = some [1, 5] ∧ r.1.fs 101 = none ∧ r.1.fs 150 = none := by
+  decide
+
+/-- a successful save, as coded: the link is replaced by the regular file, what it led to keeps its old content -/
+example :
+    let r := save w_tmp id noFault none false w_frags w_s3
+    r.2 = none ∧ r.1.fs 1 = some [1, 7] ∧ r.1.fs 50 = some [1, 5] ∧ readThrough w_link r.1.fs 3 1 = some [1, 7] := by
   decide
 
 end Capella.Props.C15
